@@ -153,6 +153,18 @@ where
     }
 }
 
+/// Verification hook (only compiled with `--cfg rustaudio_dasp_verif`): read-only access to the
+/// length of the internal backlog, which the public API never exposes directly.
+#[cfg(rustaudio_dasp_verif)]
+impl<S> Bus<S>
+where
+    S: Signal,
+{
+    pub fn verif_backlog_len(&self) -> usize {
+        self.node.borrow().buffer.len()
+    }
+}
+
 impl<S> SharedNode<S>
 where
     S: Signal,
